@@ -181,7 +181,12 @@ fn c13_raw(viol: &mut Violations) -> (u64, u64) {
                 let how = c % 3;
                 c /= 3;
                 if how != 2 && !pending_extend.is_empty() {
-                    list.extend(std::mem::take(&mut pending_extend));
+                    // (round 7) alternately an exact-size Vec and an iterator whose size_hint has lower bound 0
+                    if (code + i) % 2 == 0 {
+                        list.extend(std::mem::take(&mut pending_extend));
+                    } else {
+                        list.extend(std::mem::take(&mut pending_extend).into_iter().filter(|_| true));
+                    }
                 }
                 match how {
                     0 => list = list.command(cmd(i)),
@@ -190,7 +195,12 @@ fn c13_raw(viol: &mut Violations) -> (u64, u64) {
                 }
             }
             if !pending_extend.is_empty() {
-                list.extend(pending_extend);
+                if code % 2 == 0 {
+                    list.extend(pending_extend);
+                } else {
+                    let mut it = pending_extend.into_iter();
+                    list.extend(std::iter::from_fn(move || it.next()));
+                }
             }
             cases += 1;
             let len_ok = list.len() == n;
@@ -283,6 +293,8 @@ pub fn run_c13(tier: Tier) -> i32 {
             }
         }
     }
+    // (round 7) a list whose write failed leaves nothing behind that a later list would carry in front of it
+    viol.merge(crate::props::c07::failed_send_violations("C13"));
     let (raw_cases, raw_lines) = c13_raw(&mut viol);
     cov.evaluations += raw_cases;
     cov.transitions += raw_lines;
